@@ -20,7 +20,9 @@ class C14:
             'x (tx, ty) drawn from the observed normalised widths / heights of the segments (tx = w/2 exactly and its nextafter neighbours, '
             'tx = w/(2k) so that ceil(w/(2 tx)) = k exactly, ty = h exactly and below) and from a grid x extremes in {False, True}; '
             'both functions alternate; non-trivial = at least one inserted point (an output index that is neither a mapped knee nor a requested extreme); '
-            'distinct by (function, points, reduction, knees, tx, ty, extremes)')
+            'distinct by (function, points, reduction, knees, tx, ty, extremes); about one case in six is a same-object sequence: one points array, one reduced / removed '
+            'pair and one int64 knee array serve 2-4 calls (extremes False then True, other thresholds, add_points_even then add_points_even_knees), every call judged '
+            'against the model fed from fresh copies, and all four arguments compared with their snapshots afterwards')
     assumptions = ['indices < 2^53, so int((right-left)/number_points) (float division, truncation) is integer division — the model uses integer division',
                    'the empty knee set is in the domain of both functions (add_points_even_knees then has the gaps (0, n-1) and (n-1, n-1), commit 1b3ec6b); '
                    'about 6 % of the generated cases of either function have no knee (histogram knees = 0)',
@@ -43,6 +45,17 @@ class C14:
             cases.append({'kind': 'even' if k % 2 == 0 else 'knees', 'points': pts, 'family': fam,
                           'how': SIMPS[(k // 2) % len(SIMPS)], 'extremes': (k // 2) % 2 == 1, 'tmode': TMODES[(k // 4) % len(TMODES)],
                           'seed': rng.randrange(1 << 30)})
+        # same-object multi-call stream (about one case in six): ONE points buffer, ONE reduced / removed pair and ONE int64 knee
+        # array serve a sequence of 2-4 calls (extremes False then True, other thresholds, add_points_even then add_points_even_knees);
+        # added after the seeded changes C14-r2m3 / C14-r3m1 (rdp.mapping shifting the caller's knee array in place)
+        for k in range(total // 6):
+            n = rng.randint(3, hi)
+            for _ in range(6):
+                fam, pts = gen.curve(rng, n) if rng.random() < 0.8 else gen.mrc_curve(rng, n)
+                if len({p[1] for p in pts}) > 1:
+                    break
+            cases.append({'seq': None, 'points': pts, 'family': fam, 'how': SIMPS[k % len(SIMPS)], 'tmode': TMODES[k % len(TMODES)],
+                          'calls': 2 + k % 3, 'seed': rng.randrange(1 << 30)})
         return cases
 
     def warmup(self):
@@ -58,6 +71,108 @@ class C14:
         c = dict(c)
         c['skip'] = 'timeout'
         return c
+
+    # ---- the public API: single cases and same-object sequences ----
+    def run_impl(self, c):
+        return self._run_sequence(c) if 'seq' in c else self._run_single(c)
+
+    def _build_sequence(self, c):
+        """concrete steps of a sequence: one (points, reduced, removed, knees) quadruple, several calls"""
+        base = self._run_single({'kind': 'even', 'points': c['points'], 'family': c.get('family'), 'how': c['how'], 'extremes': False,
+                                 'tmode': c['tmode'], 'seed': c['seed']})
+        if base.get('skip'):
+            return None
+        r = random.Random(c['seed'] + 1)
+        if not base['knees'] and r.random() < 0.7 and len(base['red']) > 0:
+            m = len(base['red'])
+            base['knees'] = sorted(r.sample(range(m), r.randint(1, m)))
+        common = {k: base[k] for k in ('points', 'family', 'how', 'tmode', 'red', 'rem', 'knees')}
+        s0 = dict(common, kind='even', extremes=False, tx=base['tx'], ty=base['ty'])
+        s1 = dict(common, kind='even', extremes=True, tx=base['tx'], ty=base['ty'])
+        s2 = dict(common, kind='even', extremes=r.random() < 0.5, tx=r.choice([base['tx'] / 2, base['tx'] * 2, 0.05, 0.02]),
+                  ty=r.choice([base['ty'] / 2, base['ty'], 0.01]))
+        s3 = dict(common, kind='knees', extremes=r.random() < 0.5, tx=base['tx'], ty=base['ty'])
+        s3.pop('red'); s3.pop('rem')
+        return {2: [s0, s1], 3: [s0, s1, s3], 4: [s0, s2, s1, s3]}[c.get('calls', 2)]
+
+    def _run_sequence(self, c):
+        import numpy as np
+        import kneeliverse.postprocessing as pp
+        c = dict(c)
+        if c.get('seq') is None:
+            c['seq'] = self._build_sequence(c)
+            if c['seq'] is None:
+                c['skip'] = 'simplifier raised'
+                return c
+        steps = c['seq']
+        # expected behaviour of every call: the model is fed from separate fresh copies, computed beforehand
+        subs = [self._run_single(dict(s)) for s in steps]
+        first = next(s for s in steps if 'red' in s) if any('red' in s for s in steps) else None
+        P = np.array(steps[0]['points'], dtype=float)            # the ONE points buffer
+        K = np.array(steps[0]['knees'], dtype=np.int64)          # the ONE knee array
+        RED = np.array(first['red'], dtype=int) if first else None
+        REM = np.array(first['rem'], dtype=int).reshape(-1, 2) if first else None
+        snap = [a.copy() if a is not None else None for a in (P, K, RED, REM)]
+        for s, sub in zip(steps, subs):
+            if s['kind'] == 'even':
+                st, out = call(pp.add_points_even, P, RED, K, REM, s['tx'], s['ty'], s['extremes'])
+            else:
+                st, out = call(pp.add_points_even_knees, P, K, s['tx'], s['ty'], s['extremes'])
+            sub['out_fresh'] = sub.get('out')
+            sub['out'] = as_nat_list(out) if st == 'ok' else None
+            sub['exc'] = None if st == 'ok' else out
+        c['subs'] = subs
+        c['intact'] = all(b is None or np.array_equal(a, b) for a, b in zip((P, K, RED, REM), snap))
+        return c
+
+    def emit(self, c):
+        if 'seq' in c:
+            if c.get('skip') or 'subs' not in c:
+                return 'CSeq [] true'
+            return 'CSeq %s %s' % (clist([self._emit_single(s) for s in c['subs']]), cbool(c.get('intact', True)))
+        return self._emit_single(c)
+
+    def nontrivial_key(self, c):
+        if 'seq' in c:
+            keys = [self._key_single(s) for s in c.get('subs', [])]
+            return ('seq',) + tuple(keys) if any(k is not None for k in keys) else None
+        return self._key_single(c)
+
+    def classify(self, c):
+        if 'seq' in c:
+            if c.get('skip') or 'subs' not in c:
+                return {'function': 'skipped'}
+            return {'function': 'sequence (same points / reduced / removed / knee arrays)', 'sequence_calls': len(c['subs']),
+                    'arguments_intact': bool(c.get('intact', True)), 'knees': min(len(c['seq'][0]['knees']), 8),
+                    'outcome': 'ok' if all(not s.get('exc') for s in c['subs']) else 'exception'}
+        return self._classify_single(c)
+
+    def shrink(self, c):
+        if 'seq' in c:
+            steps = c.get('seq')
+            if not steps:
+                return []
+            out = []
+            for j in range(len(steps)):
+                if len(steps) > 2:
+                    out.append({'seq': steps[:j] + steps[j + 1:], 'points': c['points'], 'family': c.get('family')})
+            ks = steps[0]['knees']
+            for j in range(len(ks)):
+                out.append({'seq': [dict(s, knees=ks[:j] + ks[j + 1:]) for s in steps], 'points': c['points'], 'family': c.get('family')})
+            return out
+        return self._shrink_single(c)
+
+    def sample(self, c):
+        if 'seq' in c:
+            return {'sequence': [self._sample_single(s) for s in c.get('subs', [])], 'intact': c.get('intact')}
+        return self._sample_single(c)
+
+    def describe(self, c):
+        if 'seq' in c:
+            return ('ONE points array, ONE reduced / removed pair and ONE int64 knee array K = np.array(%s, dtype=np.int64), consecutive calls: '
+                    % (c['seq'][0]['knees'] if c.get('seq') else '?')
+                    + ' ;; '.join(self._describe_single(s) for s in (c.get('seq') or [])))
+        return self._describe_single(c)
 
     def _reduction(self, c, P, r):
         import numpy as np
@@ -112,7 +227,7 @@ class C14:
             ty = 0.01
         return float(tx), float(ty)
 
-    def run_impl(self, c):
+    def _run_single(self, c):
         import numpy as np
         import kneeliverse.postprocessing as pp
         c = dict(c)
@@ -154,7 +269,7 @@ class C14:
         c['inserted'] = len(set(c['out'] or []) - set(mapped) - set(ext))
         return c
 
-    def emit(self, c):
+    def _emit_single(self, c):
         if c.get('skip'):
             return 'CEvenK [] [] 0%float 0%float [] false None'
         xs = cfls([p[0] for p in c['points']])
@@ -165,12 +280,12 @@ class C14:
                                                          cnats(c['knees']), cbool(c['extremes']), out)
         return 'CEvenK %s %s %s %s %s %s %s' % (xs, ys, fl(c['tx']), fl(c['ty']), cnats(c['knees']), cbool(c['extremes']), out)
 
-    def nontrivial_key(self, c):
+    def _key_single(self, c):
         if c.get('skip') or not c.get('inserted'):
             return None
         return (c['kind'], str(c['points']), tuple(c.get('red', [])), tuple(c['knees']), c['tx'], c['ty'], c['extremes'])
 
-    def classify(self, c):
+    def _classify_single(self, c):
         if c.get('skip'):
             return {'function': 'skipped'}
         return {'function': 'add_points_even' if c['kind'] == 'even' else 'add_points_even_knees', 'n': min(len(c['points']), 64) // 4 * 4,
@@ -178,7 +293,7 @@ class C14:
                 'inserted_points': min(c.get('inserted', 0), 8), 'knees': min(len(c['knees']), 8),
                 'outcome': 'exception:%s' % c['exc'] if c.get('exc') else 'ok'}
 
-    def shrink(self, c):
+    def _shrink_single(self, c):
         out = []
         keep = ('kind', 'points', 'family', 'how', 'extremes', 'tmode', 'seed', 'red', 'rem', 'knees', 'tx', 'ty')
         base = {k: v for k, v in c.items() if k in keep}
@@ -209,11 +324,11 @@ class C14:
                 out.append(d)
         return out
 
-    def sample(self, c):
+    def _sample_single(self, c):
         keys = ['kind', 'points', 'red', 'rem', 'knees', 'tx', 'ty', 'extremes', 'out']
         return {k: c[k] for k in keys if k in c}
 
-    def describe(self, c):
+    def _describe_single(self, c):
         if c['kind'] == 'even':
             return ('kneeliverse.postprocessing.add_points_even(np.array(%s), np.array(%s), np.array(%s, dtype=int), np.array(%s), %r, %r, %s)'
                     % (c['points'], c.get('red'), c.get('knees'), c.get('rem'), c.get('tx'), c.get('ty'), c['extremes']))
